@@ -99,6 +99,8 @@ type Stats struct {
 	SyncOps         uint64
 	StarveGuards    uint64
 	Naps            uint64
+	ChanOps         uint64
+	LeakedTasks     uint64
 	Fingerprint     uint64
 	Truncated       bool
 	Aborted         string
